@@ -624,7 +624,30 @@ impl<F: std::future::Future> std::future::Future for PollThenDrop<F> {
 }
 
 /// Perform one cache operation; compare the answer with the tables.
+thread_local! {
+    /// cache queries (by their debug text) that have completed with an answer on the cache under test
+    static ANSWERED: std::cell::RefCell<BTreeSet<String>> = const { std::cell::RefCell::new(BTreeSet::new()) };
+}
+
+/// Perform one cache operation; compare the answer with the tables. A query that was answered before must be answered
+/// again - from the cache, whatever the provider says about cancellation in the meantime.
 async fn do_op(cache: &SolverCache<SimProvider>, w: &World, core: &crate::core::SimCore, op: &CacheOp, answers: &mut Vec<String>) -> Option<(String, String)> {
+    let key = format!("{op:?}");
+    let repeat = !matches!(op, CacheOp::AbandonCandidates(..) | CacheOp::Available(_)) && ANSWERED.with(|a| a.borrow().contains(&key));
+    let n_before = answers.len();
+    let r = do_op_inner(cache, w, core, op, answers).await;
+    if matches!(op, CacheOp::AbandonCandidates(..) | CacheOp::Available(_)) {
+        return r;
+    }
+    if answers.len() > n_before {
+        ANSWERED.with(|a| a.borrow_mut().insert(key));
+    } else if repeat && r.is_none() {
+        return Some(("repeat-fails".into(), format!("{op:?} was answered before, but the repeated query returned Err (cancellation was signalled in between): a cached answer needs no provider")));
+    }
+    r
+}
+
+async fn do_op_inner(cache: &SolverCache<SimProvider>, w: &World, core: &crate::core::SimCore, op: &CacheOp, answers: &mut Vec<String>) -> Option<(String, String)> {
     match op {
         CacheOp::Candidates(n) => match cache.get_or_cache_candidates(NameId(*n)).await {
             Ok(c) => {
@@ -723,9 +746,11 @@ async fn do_op(cache: &SolverCache<SimProvider>, w: &World, core: &crate::core::
                 }
             }
             let name = w.solvable_name(*s);
-            let want = deps_received.contains(s) || (cand_received.contains(&name) && w.hinted(*s));
+            // (a candidates answer may also announce solvables of other packages)
+            let announced = cand_received.iter().any(|n| w.hinted_by(*n, *s));
+            let want = deps_received.contains(s) || announced;
             if got != want {
-                return Some(("availability".into(), format!("are_dependencies_available_for({s}) = {got}, expected {want} (candidates of its package received: {}, hinted: {}, dependencies fetched: {})", cand_received.contains(&name), w.hinted(*s), deps_received.contains(s))));
+                return Some(("availability".into(), format!("are_dependencies_available_for({s}) = {got}, expected {want} (candidates of its package received: {}, announced by a received candidates answer: {}, dependencies fetched: {})", cand_received.contains(&name), announced, deps_received.contains(s))));
             }
             None
         }
@@ -786,7 +811,33 @@ impl Property for C20 {
         params.hint_weights = [2, 3, 3, 4];
         params.p_big_package = 2;
         let mut wr = Rng::stream(seed, "world");
-        let (w, _) = gen_world(&mut wr, &params, 1);
+        let (mut w, _) = gen_world(&mut wr, &params, 1);
+        // on some seeds a candidates answer also announces solvables of other packages (with higher and lower ids)
+        {
+            let mut fr = Rng::stream(seed, "foreign-hints");
+            let all: Vec<u32> = w.solvables.keys().copied().collect();
+            if fr.chance(1, 4) && !all.is_empty() {
+                let names: Vec<u32> = w.packages.keys().copied().collect();
+                for n in names {
+                    let p = w.packages.get_mut(&n).unwrap();
+                    if p.missing || !fr.chance(1, 3) {
+                        continue;
+                    }
+                    let mut list = match &p.hint {
+                        Hint::Some(v) => v.clone(),
+                        Hint::None => vec![],
+                        Hint::All => continue,
+                    };
+                    for _ in 0..fr.range(1, 2) {
+                        let x = *fr.pick(&all);
+                        if !list.contains(&x) {
+                            list.push(x);
+                        }
+                    }
+                    p.hint = Hint::Some(list);
+                }
+            }
+        }
         let mut r = Rng::stream(seed, "clients");
         let names: Vec<u32> = w.packages.keys().copied().collect();
         let vss: Vec<u32> = w.version_sets.keys().copied().collect();
@@ -865,6 +916,7 @@ impl Property for C20 {
         let core = make_core(sc);
         let provider = SimProvider::new(core.clone());
         let cache = SolverCache::new(provider);
+        ANSWERED.with(|a| a.borrow_mut().clear());
         let rt = SimRuntime { core: core.clone() };
         let res = catch_unwind(AssertUnwindSafe(|| {
             // phase 1: concurrent clients (optionally with a cancellation fault)
